@@ -40,6 +40,7 @@ import (
 type Prog struct {
 	Op   byte // T N Z M B L F K G R E P C V Y   (F: Body[0] is the closing value T/N/Z)
 	N    int
+	S    int // rendering shape (F: how the iterator triple + closing value are supplied; L: 1 = repeat-until)
 	Body []*Prog
 }
 
@@ -50,7 +51,11 @@ func (p *Prog) String() string {
 	case 'N', 'Z', 'K', 'R', 'Y':
 		return string(p.Op)
 	case 'L', 'F':
-		return string(p.Op) + strconv.Itoa(p.N) + "(" + seqString(p.Body) + ")"
+		sh := ""
+		if p.S != 0 {
+			sh = "_" + strconv.Itoa(p.S)
+		}
+		return string(p.Op) + strconv.Itoa(p.N) + sh + "(" + seqString(p.Body) + ")"
 	}
 	return string(p.Op) + "(" + seqString(p.Body) + ")"
 }
@@ -67,7 +72,107 @@ type renderer struct {
 	sb     strings.Builder
 	nvar   int
 	nlabel int
+	nrep   int
 	trail  bool
+	vf     *Prog            // the generic for of the current function that takes its values from `...`
+	names  map[*Prog]string // variable name of every rendered to-be-closed declaration
+}
+
+// shapes of the expression list of a generic for (iterator, state, control, closing value):
+const (
+	fExplicit4 = iota // nxt, n, 0, CV
+	fCall4            // four(nxt, n, 0, CV)                       all four out of one call
+	fCall3            // nxt, four(n, 0, CV)                       the closing value out of a trailing call
+	fUnpack           // table.unpack({nxt, n, 0, CV}, 1, 4)
+	fMidCall          // nxt, n, four(0, mk(999)), CV              a call in the middle is cut to one value
+	fVararg4          // ...            with nxt, n, 0, CV
+	fVararg5          // ...            with nxt, n, 0, CV, "extra"
+	fFVararg          // nxt, ...       with n, 0, CV
+	fVararg3          // ...            with nxt, n, 0             (no closing value)
+	fParen            // (four(iter(n), nil, nil, mk(999)))        cut to one value: nothing to close
+	fExplicit3        // nxt, n, 0                                  (no closing value)
+	fShapes
+)
+
+func isVarargShape(s int) bool { return s == fVararg4 || s == fVararg5 || s == fFVararg || s == fVararg3 }
+
+// needsNoClosing: shapes that deliver no fourth value; only for a generic for whose closing value is nil
+func needsNoClosing(s int) bool { return s == fVararg3 || s == fParen || s == fExplicit3 }
+
+func closingExpr(f *Prog) string {
+	switch f.Body[0].Op {
+	case 'T':
+		return fmt.Sprintf("mk(%d)", f.Body[0].N)
+	case 'Z':
+		return "42"
+	}
+	if f.N%2 == 0 {
+		return "false"
+	}
+	return "nil"
+}
+
+// effShape: the shape actually used (a shape that cannot apply falls back to the explicit list)
+func (r *renderer) effShape(f *Prog) int {
+	s := f.S
+	noClosing := f.Body[0].Op == 'N'
+	if needsNoClosing(s) && !noClosing {
+		s = fExplicit4
+	}
+	if isVarargShape(s) && r.vf != f {
+		s = fExplicit4
+	}
+	return s
+}
+
+// findVarargF: the first generic for of this function body (not of nested functions) that wants `...`
+func findVarargF(ps []*Prog) *Prog {
+	for _, p := range ps {
+		switch p.Op {
+		case 'F':
+			if isVarargShape(p.S) && !(needsNoClosing(p.S) && p.Body[0].Op != 'N') {
+				return p
+			}
+			if f := findVarargF(p.Body[1:]); f != nil {
+				return f
+			}
+		case 'B', 'L':
+			if f := findVarargF(p.Body); f != nil {
+				return f
+			}
+		}
+	}
+	return nil
+}
+
+// function renders `function(...) body end` and returns the argument list the call must pass (with a
+// leading ", " when `lead`), so that a generic for inside can take its four values from `...`
+func (r *renderer) function(body []*Prog, lead bool) string {
+	prev := r.vf
+	r.vf = findVarargF(body)
+	args := ""
+	if f := r.vf; f != nil {
+		r.sb.WriteString("function(...)\n")
+		switch f.S {
+		case fVararg4:
+			args = fmt.Sprintf("nxt, %d, 0, %s", f.N, closingExpr(f))
+		case fVararg5:
+			args = fmt.Sprintf("nxt, %d, 0, %s, 'extra'", f.N, closingExpr(f))
+		case fFVararg:
+			args = fmt.Sprintf("%d, 0, %s", f.N, closingExpr(f))
+		case fVararg3:
+			args = fmt.Sprintf("nxt, %d, 0", f.N)
+		}
+		if lead {
+			args = ", " + args
+		}
+	} else {
+		r.sb.WriteString("function()\n")
+	}
+	r.seq(body, nil)
+	r.sb.WriteString("end")
+	r.vf = prev
+	return args
 }
 
 // render writes the statements of seq; labels[i] is the label name standing after the i-th enclosing
@@ -97,7 +202,19 @@ func (r *renderer) stat(p *Prog, labels []*string) {
 	switch p.Op {
 	case 'T':
 		r.nvar++
-		fmt.Fprintf(w, "local v%d <close> = mk(%d)\n", r.nvar, p.N)
+		if r.names == nil {
+			r.names = map[*Prog]string{}
+		}
+		r.names[p] = fmt.Sprintf("v%d", r.nvar)
+		switch r.nvar % 3 {
+		case 1:
+			// <const> and <close> in one statement, either order
+			fmt.Fprintf(w, "local k%d <const>, v%d <close> = 0, mk(%d)\n", r.nvar, r.nvar, p.N)
+		case 2:
+			fmt.Fprintf(w, "local v%d <close>, k%d <const> = mk(%d), 0\n", r.nvar, r.nvar, p.N)
+		default:
+			fmt.Fprintf(w, "local v%d <close> = mk(%d)\n", r.nvar, p.N)
+		}
 	case 'N':
 		r.nvar++
 		if r.nvar%2 == 0 {
@@ -113,19 +230,69 @@ func (r *renderer) stat(p *Prog, labels []*string) {
 	case 'B':
 		r.blockWithLabel("do\n", "end", p.Body, labels)
 	case 'L':
+		if p.S == 1 {
+			// repeat … until: the body's locals are visible in the condition, which runs before they are
+			// closed; a trailing plain statement of the body is moved into the condition
+			r.nrep++
+			it := fmt.Sprintf("it%d", r.nrep)
+			body, k := p.Body, "nil"
+			if n := len(body); n > 0 && body[n-1].Op == 'M' {
+				k = strconv.Itoa(body[n-1].N)
+				body = body[:n-1]
+			}
+			var seen *Prog
+			for _, q := range body {
+				if q.Op == 'T' {
+					seen = q
+				}
+			}
+			open := fmt.Sprintf("do local %s = 0 repeat %s = %s + 1\n", it, it, it)
+			var lbl string
+			w.WriteString(open)
+			r.seq(body, append([]*string{&lbl}, labels...))
+			v := "nil"
+			if seen != nil {
+				v = r.names[seen]
+			}
+			fmt.Fprintf(w, "until rcond(%s, %s >= %d, %s) end", k, it, p.N, v)
+			if lbl != "" {
+				w.WriteString(" ::" + lbl + "::")
+				if !r.trail {
+					w.WriteString(" do end")
+				}
+			}
+			w.WriteString("\n")
+			return
+		}
 		r.blockWithLabel(fmt.Sprintf("for _ = 1, %d do\n", p.N), "end", p.Body, labels)
 	case 'F':
 		// generic for with a closing value: two levels for goto indices (the body, the implicit block that
-		// holds the closing value); both labels stand right after the loop
-		closing := "nil"
-		switch p.Body[0].Op {
-		case 'T':
-			closing = fmt.Sprintf("mk(%d)", p.Body[0].N)
-		case 'Z':
-			closing = "42"
+		// holds the closing value); both labels stand right after the loop.  The four values are supplied
+		// through the expression-list shape p.S.
+		cv := closingExpr(p)
+		var list string
+		switch r.effShape(p) {
+		case fExplicit4:
+			list = fmt.Sprintf("nxt, %d, 0, %s", p.N, cv)
+		case fCall4:
+			list = fmt.Sprintf("four(nxt, %d, 0, %s)", p.N, cv)
+		case fCall3:
+			list = fmt.Sprintf("nxt, four(%d, 0, %s)", p.N, cv)
+		case fUnpack:
+			list = fmt.Sprintf("table.unpack({nxt, %d, 0, %s}, 1, 4)", p.N, cv)
+		case fMidCall:
+			list = fmt.Sprintf("nxt, %d, four(0, mk(999)), %s", p.N, cv)
+		case fVararg4, fVararg5, fVararg3:
+			list = "..."
+		case fFVararg:
+			list = "nxt, ..."
+		case fParen:
+			list = fmt.Sprintf("(four(iter(%d), nil, nil, mk(999)))", p.N)
+		case fExplicit3:
+			list = fmt.Sprintf("nxt, %d, 0", p.N)
 		}
 		var lbl string
-		fmt.Fprintf(w, "for _ in iter(%d), nil, nil, %s do\n", p.N, closing)
+		fmt.Fprintf(w, "for _ in %s do\n", list)
 		r.seq(p.Body[1:], append([]*string{&lbl, &lbl}, labels...))
 		w.WriteString("end")
 		if lbl != "" {
@@ -136,9 +303,9 @@ func (r *renderer) stat(p *Prog, labels []*string) {
 		}
 		w.WriteString("\n")
 	case 'V':
-		w.WriteString("do return (function()\n")
-		r.seq(p.Body, nil)
-		w.WriteString("end)() end\n")
+		w.WriteString("do return (")
+		args := r.function(p.Body, false)
+		w.WriteString(")(" + args + ") end\n")
 	case 'K':
 		w.WriteString("break\n")
 	case 'G':
@@ -159,13 +326,13 @@ func (r *renderer) stat(p *Prog, labels []*string) {
 	case 'Y':
 		w.WriteString("coroutine.yield()\n")
 	case 'P':
-		w.WriteString("do local ok, e = pcall(function()\n")
-		r.seq(p.Body, nil)
-		w.WriteString("end) caught(ok, e) end\n")
+		w.WriteString("do local ok, e = pcall(")
+		args := r.function(p.Body, true)
+		w.WriteString(args + ") caught(ok, e) end\n")
 	case 'C':
-		w.WriteString(";(function()\n")
-		r.seq(p.Body, nil)
-		w.WriteString("end)()\n")
+		w.WriteString(";(")
+		args := r.function(p.Body, false)
+		w.WriteString(")(" + args + ")\n")
 	}
 }
 
@@ -173,17 +340,17 @@ func render(variant string, body []*Prog) string {
 	r := &renderer{trail: variant == "trail"}
 	switch variant {
 	case "pcall", "trail":
-		r.sb.WriteString("local ok, e = pcall(function()\n")
-		r.seq(body, nil)
-		r.sb.WriteString("end) caught(ok, e)\n")
+		r.sb.WriteString("local ok, e = pcall(")
+		args := r.function(body, true)
+		r.sb.WriteString(args + ") caught(ok, e)\n")
 	case "co":
-		r.sb.WriteString("local co = coroutine.create(function()\n")
-		r.seq(body, nil)
-		r.sb.WriteString("end) local ok, e = coroutine.resume(co) caught(ok, e)\n")
+		r.sb.WriteString("local co = coroutine.create(")
+		args := r.function(body, true)
+		r.sb.WriteString(") local ok, e = coroutine.resume(co" + args + ") caught(ok, e)\n")
 	case "coclose":
-		r.sb.WriteString("local co = coroutine.create(function()\n")
-		r.seq(body, nil)
-		r.sb.WriteString("end) local ok, e = coroutine.resume(co)\n")
+		r.sb.WriteString("local co = coroutine.create(")
+		args := r.function(body, true)
+		r.sb.WriteString(") local ok, e = coroutine.resume(co" + args + ")\n")
 		r.sb.WriteString("if coroutine.status(co) == 'suspended' then closed(coroutine.close(co)) else caught(ok, e) end\n")
 	}
 	return r.sb.String()
@@ -235,6 +402,15 @@ func newEnv() *env {
 		e.log = append(e.log, "m"+strconv.FormatInt(c.Arg(0).AsInt(), 10))
 		return c.Next(), nil
 	}, 1, false)
+	r.SetEnvGoFunc(g, "rcond", func(t *rt.Thread, c *rt.GoCont) (rt.Cont, error) {
+		// condition of a repeat-until: logs the plain statement k (if any), sees the body's variable v
+		if !c.Arg(0).IsNil() {
+			e.log = append(e.log, "m"+strconv.FormatInt(c.Arg(0).AsInt(), 10))
+		}
+		next := c.Next()
+		t.Push1(next, rt.BoolValue(rt.Truth(c.Arg(1))))
+		return next, nil
+	}, 3, false)
 	r.SetEnvGoFunc(g, "caught", func(t *rt.Thread, c *rt.GoCont) (rt.Cont, error) {
 		if rt.Truth(c.Arg(0)) {
 			e.log = append(e.log, "p:n")
@@ -256,6 +432,8 @@ function iter(n)
   local i = 0
   return function() i = i + 1 if i <= n then return i end end
 end
+function nxt(n, i) if i < n then return i + 1 end end
+function four(...) return ... end
 function mk(id)
   return setmetatable({}, {__close = function(_, e)
     local r = rec_close(id, e)
@@ -414,6 +592,15 @@ func parseSeq(s string, i int) ([]*Prog, int, error) {
 			if err != nil {
 				return nil, 0, fmt.Errorf("number expected at %d", i+1)
 			}
+			shape := 0
+			if (c == 'L' || c == 'F') && j < len(s) && s[j] == '_' {
+				k := j + 1
+				for k < len(s) && s[k] >= '0' && s[k] <= '9' {
+					k++
+				}
+				shape, _ = strconv.Atoi(s[j+1 : k])
+				j = k
+			}
 			if c == 'L' || c == 'F' {
 				if j >= len(s) || s[j] != '(' {
 					return nil, 0, fmt.Errorf("( expected at %d", j)
@@ -422,7 +609,7 @@ func parseSeq(s string, i int) ([]*Prog, int, error) {
 				if err != nil {
 					return nil, 0, err
 				}
-				out = append(out, &Prog{Op: c, N: n, Body: body})
+				out = append(out, &Prog{Op: c, N: n, S: shape, Body: body})
 				i = k
 			} else {
 				out = append(out, &Prog{Op: c, N: n})
@@ -492,6 +679,7 @@ type chain struct {
 	exitLevel int    // level at which the exit statement stands (depth = innermost)
 	exit      *Prog  // nil = none
 	trailing  bool   // nothing follows the nested construct at any level (labels become "back labels")
+	seed      int    // selects the rendering shapes of the loops of this chain
 }
 
 func (c *chain) build() ([]*Prog, []int) {
@@ -517,13 +705,24 @@ func (c *chain) build() ([]*Prog, []int) {
 				n = 2
 			}
 			inner := level(l + 1)
+			shape := 0
 			if c.kinds[l] == 'F' {
-				// the closing value of the generic for
-				id++
-				ids = append(ids, id)
-				inner = append([]*Prog{T(id)}, inner...)
+				// the closing value of the generic for, supplied through one of the expression-list shapes
+				shape = (c.seed + 3*l) % fShapes
+				if needsNoClosing(shape) {
+					inner = append([]*Prog{op('N')}, inner...)
+				} else {
+					id++
+					ids = append(ids, id)
+					inner = append([]*Prog{T(id)}, inner...)
+				}
 			}
-			out = append(out, comp(c.kinds[l], n, inner))
+			if c.kinds[l] == 'L' && (c.seed+l)%3 == 0 {
+				shape = 1 // repeat-until
+			}
+			q := comp(c.kinds[l], n, inner)
+			q.S = shape
+			out = append(out, q)
 			if c.trailing {
 				return out
 			}
@@ -681,19 +880,28 @@ func (g *rgen) seq(depth int, levels []bool, inLoop bool) []*Prog {
 			case 'B':
 				out = append(out, comp('B', 0, g.seq(depth-1, append([]bool{true}, levels...), inLoop)))
 			case 'L':
-				out = append(out, comp('L', 1+g.rng.Below(2), g.seq(depth-1, append([]bool{true}, levels...), true)))
+				q := comp('L', 1+g.rng.Below(2), g.seq(depth-1, append([]bool{true}, levels...), true))
+				if g.rng.Below(3) == 0 {
+					q.S = 1
+				}
+				out = append(out, q)
 			case 'F':
 				var cv *Prog
-				switch g.rng.Below(6) {
-				case 0:
+				shape := g.rng.Below(fShapes)
+				switch {
+				case needsNoClosing(shape) || g.rng.Below(8) == 0:
 					cv = op('N')
+				case g.rng.Below(12) == 0:
+					cv = op('Z')
 				default:
 					g.id++
 					g.ids = append(g.ids, g.id)
 					cv = T(g.id)
 				}
 				body := g.seq(depth-1, append([]bool{false, true}, levels...), true)
-				out = append(out, comp('F', 1+g.rng.Below(2), append([]*Prog{cv}, body...)))
+				q := comp('F', 1+g.rng.Below(2), append([]*Prog{cv}, body...))
+				q.S = shape
+				out = append(out, q)
 			default:
 				out = append(out, comp(k, 0, g.seq(depth-1, nil, false)))
 			}
@@ -719,6 +927,181 @@ func (g *rgen) seq(depth int, levels []bool, inLoop bool) []*Prog {
 	return out
 }
 
+// static cases: shapes that the mini-language does not generate; the expected event log is written down
+// here from the manual (`~` = any error object, its text is not prescribed).
+type staticCase struct{ name, src, expect string }
+
+const rmPrelude = `
+local function gone(id)   -- a closable value whose __close is removed after the declaration
+  local v = mk(id)
+  return v, function() getmetatable(v).__close = nil end
+end
+`
+
+var staticCases = []staticCase{
+	// manual 3.3.7: "A list of variables can contain at most one to-be-closed variable"
+	{"multiclose-rejected", `mark(load("local a <close>, b <close> = nil, nil") and 1 or 0)`, "m0"},
+	{"multiclose-rejected-values", `mark(load("local a <close>, b <close> = mk(1), mk(2)") and 1 or 0)`, "m0"},
+	{"close-const-accepted", `mark(load("local a <const>, b <close>, c <const> = 1, nil, 3") and 1 or 0)`, "m1"},
+	// __close is looked up in the metatable itself (raw), not through the metatable's __index
+	{"close-not-inherited", `local ok, e = pcall(function()
+  local x <close> = setmetatable({}, setmetatable({}, {__index = {__close = function() mark(666) end}}))
+  mark(1)
+end) caught(ok, e)`, "p:x"},
+	{"close-in-metatable-with-index", `local ok, e = pcall(function()
+  local mt = setmetatable({__close = function(_, e) rec_close(5, e) end}, {__index = {__close = function() mark(666) end}})
+  local x <close> = setmetatable({}, mt)
+  mark(1)
+end) caught(ok, e)`, "m1,c5:n,p:n"},
+	// __close replaced after the declaration: the one present at exit time is called
+	{"close-replaced", `local ok, e = pcall(function()
+  local v = mk(1)
+  local x <close> = v
+  getmetatable(v).__close = function(_, e) rec_close(2, e) end
+end) caught(ok, e)`, "c2:n,p:n"},
+	// __close removed after the declaration: an error at exit time, the other pending values are still closed
+	{"removed-normal-exit", rmPrelude + `local ok, e = pcall(function()
+  local a <close> = mk(1)
+  local v, rm = gone(2)
+  local b <close> = v
+  rm() mark(1)
+end) caught(ok, e)`, "m1,c1:~,p:~"},
+	{"removed-error-exit", rmPrelude + `local ok, e = pcall(function()
+  local a <close> = mk(1)
+  local v, rm = gone(2)
+  local b <close> = v
+  rm() error(7, 0)
+end) caught(ok, e) mark(9)`, "c1:~,p:~,m9"},
+	{"removed-return", rmPrelude + `local ok, e = pcall(function()
+  local a <close> = mk(1)
+  local v, rm = gone(2)
+  local b <close> = v
+  rm() do return end
+end) caught(ok, e) mark(9)`, "c1:~,p:~,m9"},
+	{"removed-break", rmPrelude + `local ok, e = pcall(function()
+  local a <close> = mk(1)
+  for _ = 1, 2 do
+    local c <close> = mk(3)
+    local v, rm = gone(2)
+    local b <close> = v
+    rm() break
+  end
+end) caught(ok, e) mark(9)`, "c3:~,c1:~,p:~,m9"},
+	{"removed-error-in-coroutine", rmPrelude + `local co = coroutine.create(function()
+  local a <close> = mk(1)
+  local v, rm = gone(2)
+  local b <close> = v
+  rm() error(7, 0)
+end)
+local ok, e = coroutine.resume(co) caught(ok, e) mark(9)`, "c1:~,p:~,m9"},
+	{"removed-coroutine-close", rmPrelude + `local co = coroutine.create(function()
+  local a <close> = mk(1)
+  local v, rm = gone(2)
+  local b <close> = v
+  rm() coroutine.yield()
+end)
+coroutine.resume(co) closed(coroutine.close(co)) mark(9)`, "c1:~,k:~,m9"},
+	{"removed-middle-of-three", rmPrelude + `local ok, e = pcall(function()
+  local a <close> = mk(1)
+  local v, rm = gone(2)
+  local b <close> = v
+  local c <close> = mk(3)
+  rm() error(7, 0)
+end) caught(ok, e) mark(9)`, "c3:u7,c1:~,p:~,m9"},
+	// goto out of nested loops of different kinds, closing on the way
+	{"goto-out-of-nested-loops", `local ok, e = pcall(function()
+  local a <close> = mk(1)
+  for _ = 1, 2 do
+    local b <close> = mk(2)
+    while true do
+      local c <close> = mk(3)
+      repeat
+        local d <close> = mk(4)
+        goto out
+      until true
+    end
+  end
+  ::out:: mark(1)
+end) caught(ok, e)`, "c4:n,c3:n,c2:n,m1,c1:n,p:n"},
+	// continue-style goto to the end of the enclosing loop body closes only the body's variables
+	{"goto-continue", `local ok, e = pcall(function()
+  local a <close> = mk(1)
+  for i = 1, 2 do
+    local b <close> = mk(2)
+    do
+      local c <close> = mk(3)
+      goto continue
+    end
+    mark(666)
+    ::continue::
+  end
+  mark(1)
+end) caught(ok, e)`, "c3:n,c2:n,c3:n,c2:n,m1,c1:n,p:n"},
+	// backward goto out of the scope of a to-be-closed variable closes it every time round
+	{"goto-backward", `local ok, e = pcall(function()
+  local n = 0
+  ::top::
+  do
+    local b <close> = mk(2)
+    n = n + 1
+    if n < 3 then goto top end
+  end
+  mark(1)
+end) caught(ok, e)`, "c2:n,c2:n,c2:n,m1,p:n"},
+	// a to-be-closed variable of a while loop whose condition is re-evaluated
+	{"while-loop", `local ok, e = pcall(function()
+  local n = 0
+  while n < 2 do
+    local b <close> = mk(2)
+    n = n + 1
+  end
+end) caught(ok, e)`, "c2:n,c2:n,p:n"},
+	// the value returned by a function with a pending close is computed before the close runs
+	{"return-value-before-close", `local ok, e = pcall(function()
+  local function f()
+    local x = 1
+    local b <close> = setmetatable({}, {__close = function() x = 2 rec_close(2, nil) end})
+    return x
+  end
+  mark(f())
+end) caught(ok, e)`, "c2:n,m1,p:n"},
+	// a method call in tail position with a pending close is not a tail call either
+	{"method-tail-call", `local ok, e = pcall(function()
+  local o = {m = function(self) mark(1) end}
+  local function f() local b <close> = mk(2) return o:m() end
+  f() mark(3)
+end) caught(ok, e)`, "m1,c2:n,m3,p:n"},
+}
+
+func (e *env) runStatic(sc staticCase) {
+	e.log = e.log[:0]
+	e.handlers = nil
+	status := ""
+	cl, err := hlib.Load(e.r, "c10static", sc.src)
+	if err != nil {
+		status = "compile-error"
+	} else {
+		class, _, _ := hlib.PCall(e.r, rt.FunctionValue(cl))
+		switch class {
+		case hlib.PANIC, hlib.KILLED:
+			status = "P"
+		case hlib.ERR:
+			status = "escaped"
+		}
+	}
+	log := strings.Join(e.log, ",")
+	if status != "" {
+		if log != "" {
+			log += ","
+		}
+		log += "!" + status
+	}
+	if log == "" {
+		log = "-"
+	}
+	hlib.Emit("static", sc.name, sc.expect, "=", log, "-")
+}
+
 func main() {
 	if os.Getenv("C10PROF") != "" {
 		f, _ := os.Create(os.Getenv("C10PROF"))
@@ -738,6 +1121,7 @@ func main() {
 		rng := hlib.NewRng(hlib.Seed())
 		maxDepth := 3
 		n := 0
+		nc := 0
 		enumChains(maxDepth, 3, func(c *chain) {
 			depth := len(c.kinds)
 			// quick: everything up to depth 1, seeded samples of depth 2 (1 in 16) and depth 3 (1 in 200);
@@ -748,6 +1132,8 @@ func main() {
 			if thorough && depth == 3 && rng.Below(20) != 0 {
 				return
 			}
+			nc++
+			c.seed = nc
 			body, ids := c.build()
 			for hi, hs := range handlerConfigs(ids, (thorough && depth <= 2) || depth == 0) {
 				if !thorough && depth >= 2 && hi > 0 && rng.Below(3) != 0 {
@@ -764,6 +1150,7 @@ func main() {
 				if c.exit != nil && c.exit.Op == 'G' && c.exitLevel == depth {
 					// the same chain with nothing after the nested constructs: the goto label is a back label
 					ct := *c
+					ct.seed = nc
 					ct.trailing = true
 					tb, _ := ct.build()
 					e.run("trail", tb, hs)
@@ -777,6 +1164,16 @@ func main() {
 				}
 			}
 		})
+	case "static":
+		for _, sc := range staticCases {
+			if len(os.Args) > 2 && os.Args[2] != sc.name {
+				continue
+			}
+			if len(os.Args) > 2 {
+				fmt.Fprintln(os.Stderr, sc.src)
+			}
+			e.runStatic(sc)
+		}
 	case "random":
 		n, _ := strconv.Atoi(os.Args[2])
 		rng := hlib.NewRng(hlib.Seed() + 10)
